@@ -531,7 +531,24 @@ func appendedSources(v ssa.Value) []ssa.Value {
 					}
 				}
 			}
+		case *ssa.Extract:
+			// result of an unexported module helper: the list its success returns hand back
+			if hc, ok := y.Tuple.(*ssa.Call); ok {
+				if g := hc.Call.StaticCallee(); g != nil && g.Blocks != nil && g.Pkg != nil && strings.HasPrefix(g.Pkg.Pkg.Path(), modPath) && (g.Object() == nil || !g.Object().Exported()) {
+					for _, r := range returnsOf(g) {
+						if y.Index < len(r.Results) {
+							rec(r.Results[y.Index])
+						}
+					}
+				}
+			}
 		case *ssa.Call:
+			if g := y.Call.StaticCallee(); g != nil && g.Blocks != nil && g.Pkg != nil && strings.HasPrefix(g.Pkg.Pkg.Path(), modPath) && (g.Object() == nil || !g.Object().Exported()) && g.Signature.Results().Len() == 1 {
+				for _, r := range returnsOf(g) {
+					rec(r.Results[0])
+				}
+				return
+			}
 			if calleeName(y) == "builtin:append" {
 				rec(y.Call.Args[0])
 				if len(y.Call.Args) > 1 {
